@@ -117,15 +117,78 @@ def nextStart (bounds valid : S → Bool) (starts : Array S) (pis : Pis) : Optio
   else (none, pis)
 termination_by starts.size - pis.addedStartStates
 
-/-- `while (const State *st = pis_.nextStart()) …`: all states handed out, in order. -/
-def drainStarts (bounds valid : S → Bool) (starts : Array S) (pis : Pis) : List (Nat × S) × Pis :=
-  match h : nextStart bounds valid starts pis with
-  | (none, pis') => ([], pis')
-  | (some x, pis') =>
-    let r := drainStarts bounds valid starts pis'
-    (x :: r.1, r.2)
-termination_by starts.size - pis.addedStartStates
-decreasing_by
-  all_goals sorry
+/-- `while (const State *st = pis_.nextStart()) …`: all states handed out, in order.  `fuel` bounds the
+number of calls; `starts.size + 1` is always enough (`drainStarts_exhausts`). -/
+def drainStarts (bounds valid : S → Bool) (starts : Array S) : Nat → Pis → List (Nat × S) × Pis
+  | 0, pis => ([], pis)
+  | fuel + 1, pis =>
+    match nextStart bounds valid starts pis with
+    | (none, pis') => ([], pis')
+    | (some x, pis') =>
+      let r := drainStarts bounds valid starts fuel pis'
+      (x :: r.1, r.2)
+
+/-- a scripted termination condition: one `Bool` per evaluation; an exhausted script says `true` -/
+def ptcEval : List Bool → Bool × List Bool
+  | [] => (true, [])
+  | b :: r => (b, r)
+
+/-- the `do { sampleGoal; ++count; if ok return } while (!ptc && count < max && canSample())` loop.
+`sample k` is the `k`-th goal sample handed to this `PlannerInputStates`; returns
+(state, new count, rest of the ptc script). -/
+def goalInner (bounds valid : S → Bool) (sample : Nat → S) (maxCount : Nat) :
+    Nat → Nat → List Bool → Option (Nat × S) × Nat × List Bool
+  | 0, count, sc => (none, count, sc)
+  | fuel + 1, count, sc =>
+    let st := sample count
+    if inputOk bounds valid st then (some (count, st), count + 1, sc)
+    else
+      let (t, sc') := ptcEval sc
+      if !t && count + 1 < maxCount then goalInner bounds valid sample maxCount fuel (count + 1) sc'
+      else (none, count + 1, sc')
+
+/-- the `while (attempt)` loop of `nextGoal(ptc)` for a goal with `canSample() == couldSample() ==
+(maxSampleCount() > 0)` (GoalState, GoalStates); no wall clock. -/
+def goalOuter (bounds valid : S → Bool) (sample : Nat → S) (maxCount : Nat) :
+    Nat → Nat → List Bool → Option (Nat × S) × Nat × List Bool
+  | 0, count, sc => (none, count, sc)
+  | fuel + 1, count, sc =>
+    let r := if count < maxCount then goalInner bounds valid sample maxCount (maxCount - count) count sc
+             else (none, count, sc)
+    match r with
+    | (some x, count', sc') => (some x, count', sc')
+    | (none, count', sc') =>
+      if 0 < maxCount then
+        let (t1, sc1) := ptcEval sc'
+        if !t1 then
+          let (t2, sc2) := ptcEval sc1
+          if !t2 then goalOuter bounds valid sample maxCount fuel count' sc2 else (none, count', sc2)
+        else (none, count', sc1)
+      else (none, count', sc')
+
+/-- `nextGoal(ptc)`; `nextGoal()` is `ptcScript = []` (the always-terminating condition). -/
+def nextGoal (bounds valid : S → Bool) (sample : Nat → S) (maxCount : Nat) (ptcScript : List Bool) (pis : Pis) :
+    Option (Nat × S) × Pis :=
+  let r := goalOuter bounds valid sample maxCount (ptcScript.length + 1) pis.sampledGoalsCount ptcScript
+  (r.1, { pis with sampledGoalsCount := r.2.1 })
+
+/-! ### GoalRegion -/
+
+/-- `GoalRegion::isSatisfied(st, &distance)`: `d2g = distanceGoal(st); *distance = d2g; return d2g < threshold_` -/
+def isSatisfied (distanceGoal : S → D) (lt : D → D → Bool) (threshold : D) (st : S) : Bool × D :=
+  (lt (distanceGoal st) threshold, distanceGoal st)
+
+/-! ### PathGeometric::check -/
+
+/-- `for (j = 0; result && j < last; ++j) if (!checkMotion(states[j], states[j+1])) result = false` -/
+def checkLoop (checkMotion : S → S → Bool) : S → List S → Bool
+  | _, [] => true
+  | a, b :: r => if checkMotion a b then checkLoop checkMotion b r else false
+
+/-- `PathGeometric::check()`: an empty path passes; otherwise the first state must be valid and every
+consecutive pair must pass `checkMotion`. -/
+def pathCheck (valid : S → Bool) (checkMotion : S → S → Bool) : List S → Bool
+  | [] => true
+  | s0 :: rest => if valid s0 then checkLoop checkMotion s0 rest else false
 
 end OmplModel.PlannerReport
